@@ -382,7 +382,20 @@ def verif_call(eng, st, fr, ins, name, args):
         st.marks.append(('mark', args[0], args[1], st.po, tuple(st.pc)))
         st.po += 1
         return None
+    if name == 'verif_thread_gone':
+        # the zombie phase of simulated thread t is over: its thread-local storage disappears
+        t = args[0]
+        for key in [k for k in st.tls_inst if k[0] == t]:
+            st.live[st.tls_inst[key]] = False
+            del st.tls_inst[key]
+        return None
     if name == 'verif_set_thread':
+        # a thread whose destructors have run is gone for good: a later use of the same id is a new thread
+        for t_ in list(st.exiting):
+            for key in [k for k in st.tls_inst if k[0] == t_]:
+                st.live[st.tls_inst[key]] = False
+                del st.tls_inst[key]
+        st.exiting = set()
         t = args[0]
         outs = eng.concretize(st, t, ins, 'thread id')
         if len(outs) == 1 and outs[0][0] is st:
@@ -393,11 +406,19 @@ def verif_call(eng, st, fr, ins, name, args):
             s.thread = x
             res.append(s)
         return res
-    if name == 'verif_thread_exit':
+    if name in ('verif_thread_exit', 'verif_thread_zombie'):
         t = args[0]
         if not is_conc(t):
-            raise Unsupported('symbolic thread id in verif_thread_exit')
-        return thread_exit(eng, st, fr, t)
+            outs = eng.concretize(st, t, ins, 'thread id')
+            res = []
+            for s_, x in outs:
+                f2 = s_.frames[-1]
+                if ins.args and ins.args[0][1][0] == 'local':
+                    f2.regs[ins.args[0][1][1]] = x
+                f2.idx -= 1          # re-execute the call with the thread id pinned
+                res.append(s_)
+            return res
+        return thread_exit(eng, st, fr, t, zombie=(name == 'verif_thread_zombie'))
     if name == 'verif_user_panic':
         st.marks.append(('user_panic', args[0] if args else 0, 0, st.po, tuple(st.pc)))
         if eng.unwind:
@@ -424,11 +445,13 @@ def verif_call(eng, st, fr, ins, name, args):
     raise Unsupported('unknown verif_ call %s' % name)
 
 
-def thread_exit(eng, st, fr, t):
+def thread_exit(eng, st, fr, t, zombie=False):
     """Run the TLS destructors registered by simulated thread t (std runs them at thread exit)."""
     dtors = st.tls_dtors.pop(t, [])
     saved = st.thread
     st.thread = t
+    if not zombie:
+        st.exiting = set(st.exiting) | {t}
     # push destructor frames; after they return, restore the thread id via a marker frame trick:
     # we run them one by one through call_function; the thread switch back is done by the harness
     # calling verif_set_thread afterwards (documented contract).
